@@ -1,3 +1,1016 @@
 package main
 
-func replayOnRealCode(eng *engine, id string, j job, replayPath string) bool { return false }
+// Replay of a solver counterexample on the real code.
+//
+// For an obligation refuted with a model (`sat`) the engine extracts, by walking the types of
+// the function's parameters and of the package-level variables it touches, the concrete entry
+// state the model describes (scalars, structs, arrays, slices, pointers to those), generates an
+// in-package Go test that builds exactly that state, calls the real function and prints its
+// results and the final contents of the same objects, runs it with `go test -overlay` (nothing
+// is written into the repository), and compares what the real code did with what the model
+// predicts:
+//
+//   - the real code panics where a safety obligation (index, slice bounds, nil, type assertion,
+//     explicit panic) was refuted                                  -> confirmed
+//   - the real code returns exactly the results and leaves exactly the object contents the
+//     model predicts, i.e. the values for which the solver showed the clause false -> confirmed
+//   - anything else (divergence, crash, unsupported shape)          -> not confirmed; the
+//     VIOLATION line keeps `no-failing-input-found` and the replay file says why.
+//
+// Out of reach (reported as such): raw memory, interface- and function-typed inputs, closures,
+// ghost state in the refuted clause, slices longer than 256 elements in every model.
+
+import (
+	"bytes"
+	"context"
+	"encoding/json"
+	"fmt"
+	"go/types"
+	"math/big"
+	"os"
+	"os/exec"
+	"path/filepath"
+	"sort"
+	"strconv"
+	"strings"
+	"time"
+
+	"golang.org/x/tools/go/ssa"
+)
+
+type rloc struct {
+	t    types.Type
+	ref  string
+	off  string
+	fld  *fieldRef
+	term []string // entry-state leaf terms
+}
+
+type rnode struct {
+	kind    string // scalar ptr slice struct array unsupported
+	t       types.Type
+	loc     *rloc
+	goExpr  string
+	fields  []*rnode
+	fnames  []string
+	elems   []*rnode
+	pointee *rnode
+	why     string
+}
+
+type replayer struct {
+	u        *unit
+	o        *oblig
+	entry    *state
+	post     *state
+	pkg      *types.Package
+	imports  map[string]string // path -> name
+	terms    []string
+	seenTerm map[string]bool
+	vals     map[string]string
+	bad      string
+	nobj     int
+	decls    []string // Go statements building the inputs
+	leaves   []*rnode // scalar leaves with a location (compared after the call)
+	objs     map[string]string
+	stubs    map[string]string
+	stubCode []string
+}
+
+func (r *replayer) fail(f string, a ...interface{}) {
+	if r.bad == "" {
+		r.bad = fmt.Sprintf(f, a...)
+	}
+}
+
+func (r *replayer) want(ts ...string) {
+	for _, t := range ts {
+		if !r.seenTerm[t] {
+			r.seenTerm[t] = true
+			r.terms = append(r.terms, t)
+		}
+	}
+}
+
+func (r *replayer) typeName(t types.Type) string {
+	return types.TypeString(t, func(p *types.Package) string {
+		if p == r.pkg {
+			return ""
+		}
+		r.imports[p.Path()] = p.Name()
+		return p.Name()
+	})
+}
+
+func exportedOrLocal(t types.Type, pkg *types.Package) bool {
+	ok := true
+	var walk func(t types.Type)
+	seen := map[types.Type]bool{}
+	walk = func(t types.Type) {
+		if seen[t] {
+			return
+		}
+		seen[t] = true
+		switch x := t.(type) {
+		case *types.Named:
+			if x.Obj().Pkg() != nil && x.Obj().Pkg() != pkg && !x.Obj().Exported() {
+				ok = false
+			}
+		case *types.Pointer:
+			walk(x.Elem())
+		case *types.Slice:
+			walk(x.Elem())
+		case *types.Array:
+			walk(x.Elem())
+		}
+	}
+	walk(t)
+	return ok
+}
+
+// build describes the value of type t stored at (ref, off) [fld for a scalar struct field]
+func (r *replayer) build(t types.Type, ref, off string, fld *fieldRef, depth int) *rnode {
+	m := r.u.m
+	n := &rnode{t: t}
+	if depth > 4 {
+		n.kind, n.why = "unsupported", "nesting too deep"
+		return n
+	}
+	switch u := t.Underlying().(type) {
+	case *types.Struct:
+		n.kind = "struct"
+		fs, offs := structFields(u)
+		for i, f := range fs {
+			var c *rnode
+			if isInlineField(f.Type()) {
+				c = r.build(f.Type(), ref, m.offAdd(off, m.offConst(offs[i])), nil, depth+1)
+			} else {
+				c = r.build(f.Type(), ref, "", &fieldRef{heap: "H_" + tname(t) + "_" + f.Name(), ref: ref, off: off}, depth+1)
+			}
+			n.fields = append(n.fields, c)
+			n.fnames = append(n.fnames, f.Name())
+		}
+		return n
+	case *types.Array:
+		n.kind = "array"
+		if u.Len() > 4096 {
+			n.kind, n.why = "unsupported", "large array"
+			return n
+		}
+		if _, basic := u.Elem().Underlying().(*types.Basic); basic && u.Len() > 64 {
+			// large scalar arrays: only the elements the query mentions are fixed; rest zero
+			n.kind = "bigarray"
+			n.loc = &rloc{t: t, ref: ref, off: off}
+			return n
+		}
+		esz := sizes.Sizeof(u.Elem())
+		for i := int64(0); i < u.Len(); i++ {
+			n.elems = append(n.elems, r.build(u.Elem(), ref, m.offAdd(off, m.offConst(i*esz)), nil, depth+1))
+		}
+		return n
+	}
+	st := r.entry.scratch()
+	v := st.loadAt(t, ref, off, fld)
+	n.loc = &rloc{t: t, ref: ref, off: off, fld: fld, term: v.S}
+	r.describe(n, v, depth)
+	return n
+}
+
+func (r *replayer) describe(n *rnode, v Val, depth int) {
+	switch u := n.t.Underlying().(type) {
+	case *types.Basic:
+		if u.Kind() == types.String || u.Kind() == types.UnsafePointer {
+			n.kind, n.why = "unsupported", "string/unsafe.Pointer input"
+			return
+		}
+		n.kind = "scalar"
+		r.want(v.S...)
+	case *types.Pointer:
+		n.kind = "ptr"
+		r.want(v.S[0], v.S[1])
+		if _, isStruct := u.Elem().Underlying().(*types.Struct); isStruct && depth < 3 {
+			n.pointee = r.build(u.Elem(), v.S[0], v.S[1], nil, depth+1)
+		} else if _, isBasic := u.Elem().Underlying().(*types.Basic); isBasic && depth < 3 {
+			n.pointee = r.build(u.Elem(), v.S[0], v.S[1], nil, depth+1)
+		} else {
+			n.pointee = &rnode{kind: "unsupported", why: "pointer target " + u.Elem().String()}
+		}
+	case *types.Slice:
+		n.kind = "slice"
+		r.want(v.S...)
+	case *types.Interface:
+		// a non-nil interface value is replayed with a do-nothing stub implementation
+		n.kind = "iface"
+		r.want(v.S[0])
+	default:
+		n.kind, n.why = "unsupported", fmt.Sprintf("%s input", n.t)
+	}
+}
+
+// stubFor returns the name of a generated do-nothing implementation of interface type t
+func (r *replayer) stubFor(t types.Type) (string, bool) {
+	it, ok := t.Underlying().(*types.Interface)
+	if !ok {
+		return "", false
+	}
+	key := t.String()
+	if name, ok := r.stubs[key]; ok {
+		return name, true
+	}
+	name := fmt.Sprintf("govcStub%d", len(r.stubs)+1)
+	var sb strings.Builder
+	sb.WriteString(fmt.Sprintf("// %s: do-nothing stand-in for a %s\ntype %s struct{}\n\n", name, r.typeName(t), name))
+	for i := 0; i < it.NumMethods(); i++ {
+		m := it.Method(i)
+		if !m.Exported() && m.Pkg() != r.pkg {
+			return "", false
+		}
+		sig := m.Type().(*types.Signature)
+		var ps, rs []string
+		for k := 0; k < sig.Params().Len(); k++ {
+			pt := sig.Params().At(k).Type()
+			if !exportedOrLocal(pt, r.pkg) {
+				return "", false
+			}
+			ts := r.typeName(pt)
+			if sig.Variadic() && k == sig.Params().Len()-1 {
+				ts = "..." + r.typeName(pt.(*types.Slice).Elem())
+			}
+			ps = append(ps, fmt.Sprintf("p%d %s", k, ts))
+		}
+		for k := 0; k < sig.Results().Len(); k++ {
+			rt := sig.Results().At(k).Type()
+			if !exportedOrLocal(rt, r.pkg) {
+				return "", false
+			}
+			rs = append(rs, fmt.Sprintf("r%d %s", k, r.typeName(rt)))
+		}
+		sb.WriteString(fmt.Sprintf("func (*%s) %s(%s) (%s) { return }\n", name, m.Name(), strings.Join(ps, ", "), strings.Join(rs, ", ")))
+	}
+	if r.stubs == nil {
+		r.stubs = map[string]string{}
+	}
+	r.stubs[key] = name
+	r.stubCode = append(r.stubCode, sb.String())
+	return name, true
+}
+
+func (r *replayer) val(term string) string {
+	if v, ok := r.vals[term]; ok {
+		return v
+	}
+	// literals evaluate to themselves
+	return term
+}
+
+func smtInt(v string) (*big.Int, bool) {
+	v = strings.TrimSpace(v)
+	switch {
+	case strings.HasPrefix(v, "#x"):
+		n, ok := new(big.Int).SetString(v[2:], 16)
+		return n, ok
+	case strings.HasPrefix(v, "#b"):
+		n, ok := new(big.Int).SetString(v[2:], 2)
+		return n, ok
+	case strings.HasPrefix(v, "(- "):
+		n, ok := new(big.Int).SetString(strings.TrimSuffix(strings.TrimSpace(v[3:]), ")"), 10)
+		if ok {
+			n.Neg(n)
+		}
+		return n, ok
+	case strings.HasPrefix(v, "(_ bv"):
+		f := strings.Fields(v[5:])
+		if len(f) > 0 {
+			n, ok := new(big.Int).SetString(f[0], 10)
+			return n, ok
+		}
+	}
+	n, ok := new(big.Int).SetString(v, 10)
+	return n, ok
+}
+
+// goLit renders the model value of a scalar leaf as a Go expression of type t
+func (r *replayer) goLit(t types.Type, v string) (string, bool) {
+	b, ok := t.Underlying().(*types.Basic)
+	if !ok {
+		return "", false
+	}
+	tn := r.typeName(t)
+	if b.Info()&types.IsBoolean != 0 {
+		if v == "true" || v == "false" {
+			return tn + "(" + v + ")", true
+		}
+		return "", false
+	}
+	n, ok := smtInt(v)
+	if !ok {
+		return "", false
+	}
+	bits := int(sizes.Sizeof(t)) * 8
+	if b.Info()&types.IsUnsigned == 0 && b.Info()&types.IsInteger != 0 {
+		// two's complement
+		if n.Sign() >= 0 && n.BitLen() == bits {
+			n = new(big.Int).Sub(n, new(big.Int).Lsh(big.NewInt(1), uint(bits)))
+		}
+		if n.Sign() < 0 {
+			// T(-x) : avoid constant overflow for the minimum value by going through a variable-free expression
+			return fmt.Sprintf("%s(%s)", tn, n.String()), true
+		}
+	}
+	return fmt.Sprintf("%s(%s)", tn, n.String()), true
+}
+
+func canon(t types.Type, v string) string {
+	b, ok := t.Underlying().(*types.Basic)
+	if !ok {
+		return v
+	}
+	if b.Info()&types.IsBoolean != 0 {
+		return v
+	}
+	n, ok := smtInt(v)
+	if !ok {
+		return v
+	}
+	bits := int(sizes.Sizeof(t)) * 8
+	if b.Info()&types.IsUnsigned == 0 && n.Sign() >= 0 && n.BitLen() == bits {
+		n = new(big.Int).Sub(n, new(big.Int).Lsh(big.NewInt(1), uint(bits)))
+	}
+	return n.String()
+}
+
+// emit generates Go code that builds the value described by n and returns an expression for it;
+// leaves with a location are registered for the comparison after the call
+func (r *replayer) emit(n *rnode, target string) {
+	switch n.kind {
+	case "scalar":
+		lit, ok := r.goLit(n.t, r.val(n.loc.term[0]))
+		if !ok {
+			r.fail("no value for %s", target)
+			return
+		}
+		r.decls = append(r.decls, fmt.Sprintf("%s = %s", target, lit))
+		n.goExpr = target
+		r.leaves = append(r.leaves, n)
+	case "struct":
+		for i, f := range n.fields {
+			if n.fnames[i] == "_" {
+				continue
+			}
+			if f.kind == "unsupported" {
+				// left at its zero value; if the counterexample depends on it the replay
+				// diverges - and a clause that reads it cannot be confirmed at all
+				if f.loc != nil {
+					for _, tm := range f.loc.term {
+						if len(tm) > 8 && strings.Contains(r.o.goal, tm) {
+							r.fail("the refuted clause reads %s.%s, which the replay cannot set up (%s)", target, n.fnames[i], f.why)
+						}
+					}
+				}
+				continue
+			}
+			r.emit(f, target+"."+n.fnames[i])
+		}
+	case "array":
+		for i, e := range n.elems {
+			r.emit(e, fmt.Sprintf("%s[%d]", target, i))
+		}
+	case "bigarray":
+		at := n.t.Underlying().(*types.Array)
+		esz := sizes.Sizeof(at.Elem())
+		for i := int64(0); i < at.Len(); i++ {
+			st := r.entry.scratch()
+			v := st.loadAt(at.Elem(), n.loc.ref, r.u.m.offAdd(n.loc.off, r.u.m.offConst(i*esz)), nil)
+			if val, ok := r.vals[v.S[0]]; ok {
+				if lit, ok := r.goLit(at.Elem(), val); ok {
+					r.decls = append(r.decls, fmt.Sprintf("%s[%d] = %s", target, i, lit))
+				}
+			}
+		}
+	case "iface":
+		if r.val(n.loc.term[0]) == "0" {
+			r.decls = append(r.decls, fmt.Sprintf("%s = nil", target))
+			return
+		}
+		name, ok := r.stubFor(n.t)
+		if !ok {
+			r.fail("%s: interface value that cannot be stubbed", target)
+			return
+		}
+		r.decls = append(r.decls, fmt.Sprintf("%s = &%s{}", target, name))
+	case "ptr":
+		ref, off := r.val(n.loc.term[0]), r.val(n.loc.term[1])
+		on, ok := smtInt(off)
+		if ref == "0" && ok && on.Sign() == 0 {
+			r.decls = append(r.decls, fmt.Sprintf("%s = nil", target))
+			return
+		}
+		if strings.HasPrefix(ref, "(- ") {
+			r.fail("%s is an integer-made (raw) or freshly allocated pointer in the model", target)
+			return
+		}
+		if n.pointee == nil || n.pointee.kind == "unsupported" {
+			r.fail("%s points to an unsupported object", target)
+			return
+		}
+		key := ref + "/" + off + "/" + n.pointee.t.String()
+		if name, ok := r.objs[key]; ok {
+			r.decls = append(r.decls, fmt.Sprintf("%s = %s", target, name))
+			return
+		}
+		r.nobj++
+		name := fmt.Sprintf("obj%d", r.nobj)
+		r.objs[key] = name
+		r.decls = append(r.decls, fmt.Sprintf("%s := new(%s)", name, r.typeName(n.pointee.t)))
+		r.decls = append(r.decls, fmt.Sprintf("%s = %s", target, name))
+		if n.pointee.kind == "scalar" {
+			r.emit(n.pointee, "*"+name)
+		} else {
+			r.emit(n.pointee, name)
+		}
+	case "slice":
+		ref := r.val(n.loc.term[0])
+		ln, ok := smtInt(r.val(n.loc.term[2]))
+		off, ok2 := smtInt(r.val(n.loc.term[1]))
+		if !ok || !ok2 {
+			r.fail("no length for %s", target)
+			return
+		}
+		if ref == "0" && off.Sign() == 0 {
+			r.decls = append(r.decls, fmt.Sprintf("%s = nil", target))
+			return
+		}
+		if strings.HasPrefix(ref, "(- 1)") {
+			r.fail("%s is a raw slice in the model", target)
+			return
+		}
+		if !ln.IsInt64() || ln.Int64() < 0 || ln.Int64() > 256 {
+			r.fail("%s has length %s in the model", target, ln)
+			return
+		}
+		st := n.t.Underlying().(*types.Slice)
+		r.nobj++
+		name := fmt.Sprintf("sl%d", r.nobj)
+		r.decls = append(r.decls, fmt.Sprintf("%s := make(%s, %d)", name, r.typeName(n.t), ln.Int64()))
+		r.decls = append(r.decls, fmt.Sprintf("%s = %s", target, name))
+		for i, e := range n.elems {
+			if int64(i) >= ln.Int64() {
+				break
+			}
+			r.emit(e, fmt.Sprintf("%s[%d]", name, i))
+		}
+		_ = st
+	}
+}
+
+// expandSlices builds the element nodes of every slice whose length the first model fixes
+func (r *replayer) expandSlices(n *rnode, depth int) {
+	if n == nil {
+		return
+	}
+	switch n.kind {
+	case "slice":
+		ln, ok := smtInt(r.val(n.loc.term[2]))
+		if !ok || !ln.IsInt64() || ln.Int64() < 0 || ln.Int64() > 256 {
+			return
+		}
+		et := n.t.Underlying().(*types.Slice).Elem()
+		esz := sizes.Sizeof(et)
+		m := r.u.m
+		if len(n.elems) == 0 {
+			for i := int64(0); i < ln.Int64(); i++ {
+				n.elems = append(n.elems, r.build(et, n.loc.term[0], m.offAdd(n.loc.term[1], m.offConst(i*esz)), nil, depth+1))
+			}
+		} else {
+			for _, e := range n.elems {
+				r.expandSlices(e, depth+1)
+			}
+		}
+	case "struct":
+		for _, f := range n.fields {
+			r.expandSlices(f, depth+1)
+		}
+	case "array":
+		for _, e := range n.elems {
+			r.expandSlices(e, depth+1)
+		}
+	case "ptr":
+		r.expandSlices(n.pointee, depth+1)
+	}
+}
+
+func (r *replayer) sliceLenTerms(n *rnode, out *[]string) {
+	if n == nil {
+		return
+	}
+	switch n.kind {
+	case "slice":
+		*out = append(*out, n.loc.term[2])
+		for _, e := range n.elems {
+			r.sliceLenTerms(e, out)
+		}
+	case "struct":
+		for _, f := range n.fields {
+			r.sliceLenTerms(f, out)
+		}
+	case "array":
+		for _, e := range n.elems {
+			r.sliceLenTerms(e, out)
+		}
+	case "ptr":
+		r.sliceLenTerms(n.pointee, out)
+	}
+}
+
+// getValues evaluates the wanted terms in a model of the refuted obligation
+func (r *replayer) getValues(j job, dir, fn string, extra []string) bool {
+	if len(r.terms) == 0 {
+		return true
+	}
+	q := j.u.query(j.o, append(append([]string{}, j.extra...), extra...), false)
+	// declarations of symbols that occur only in the wanted terms
+	var extraDecls strings.Builder
+	seenSym := map[string]bool{}
+	for _, t := range r.terms {
+		for _, sym := range symRe.FindAllString(t, -1) {
+			if seenSym[sym] {
+				continue
+			}
+			seenSym[sym] = true
+			if d, ok := j.u.decls[sym]; ok && !strings.Contains(q, d+"\n") {
+				extraDecls.WriteString(d + "\n")
+			}
+		}
+	}
+	if i := strings.Index(q, "(set-logic ALL)\n"); i >= 0 && extraDecls.Len() > 0 {
+		i += len("(set-logic ALL)\n")
+		q = q[:i] + extraDecls.String() + q[i:]
+	}
+	var sb strings.Builder
+	sb.WriteString(q)
+	sb.WriteString("(get-value (")
+	for _, t := range r.terms {
+		sb.WriteString(t + " ")
+	}
+	sb.WriteString("))\n")
+	qf := filepath.Join(dir, fn+".replay.smt2")
+	os.WriteFile(qf, []byte(sb.String()), 0644)
+	//defer os.Remove(qf)
+	for _, sp := range solvers[:2] {
+		res, txt, _ := runSolver(context.Background(), sp, qf, 30000, 1)
+		if res != "sat" {
+			continue
+		}
+		i := strings.Index(txt, "((")
+		if i < 0 {
+			continue
+		}
+		r.vals = map[string]string{}
+		for _, pair := range splitSexp(strings.TrimSpace(txt[i:])) {
+			kv := splitSexp(pair)
+			if len(kv) == 2 {
+				r.vals[kv[0]] = kv[1]
+			}
+		}
+		return true
+	}
+	return false
+}
+
+type replayOutcome struct {
+	Status  string   `json:"status"` // confirmed | not-confirmed
+	How     string   `json:"how"`
+	Test    string   `json:"test_file,omitempty"`
+	Command string   `json:"command,omitempty"`
+	Output  []string `json:"output,omitempty"`
+}
+
+func moduleRoot(dir string) string {
+	for d := dir; d != "/" && d != "."; d = filepath.Dir(d) {
+		if _, err := os.Stat(filepath.Join(d, "go.mod")); err == nil {
+			return d
+		}
+	}
+	return dir
+}
+
+func replayOnRealCode(eng *engine, id string, j job, replayPath string) bool {
+	out := doReplay(eng, id, j, replayPath)
+	// record the outcome in the replay file
+	if data, err := os.ReadFile(replayPath); err == nil {
+		var m map[string]interface{}
+		if json.Unmarshal(data, &m) == nil {
+			m["replay"] = out
+			if nd, err := json.MarshalIndent(m, "", " "); err == nil {
+				os.WriteFile(replayPath, nd, 0644)
+			}
+		}
+	}
+	return out.Status == "confirmed"
+}
+
+func doReplay(eng *engine, id string, j job, replayPath string) (out replayOutcome) {
+	out.Status = "not-confirmed"
+	defer func() {
+		if rec := recover(); rec != nil {
+			out.How = fmt.Sprintf("replay generator gave up: %v", rec)
+		}
+	}()
+	u, o := j.u, j.o
+	if u.fn == nil || u.lemma != nil {
+		out.How = "not a function obligation"
+		return
+	}
+	if u.fn.Parent() != nil {
+		out.How = "closure: cannot be called from a test"
+		return
+	}
+	switch o.kind {
+	case "inv-entry", "inv-preserved", "decreases", "call-requires", "frame", "assert", "hint", "cover", "unwind", "guarded", "reads":
+		out.How = "obligation kind " + o.kind + " is not observable from outside the function (loop invariant, callee precondition, frame): no replay"
+		return
+	}
+	full := strings.Join(o.pc, " ") + o.goal
+	if strings.Contains(full, "|M@") {
+		out.How = "the counterexample involves raw memory at fixed addresses: cannot be set up in a test process"
+		return
+	}
+	if strings.Contains(o.goal, "|G_") {
+		out.How = "the refuted clause speaks about ghost state: not observable on the real code"
+		return
+	}
+	r := &replayer{u: u, o: o, entry: u.entryOld, pkg: u.fn.Pkg.Pkg, imports: map[string]string{}, seenTerm: map[string]bool{}, objs: map[string]string{}}
+	if r.entry == nil {
+		out.How = "no entry state"
+		return
+	}
+	// parameters
+	type pin struct {
+		name string
+		node *rnode
+		v    Val
+	}
+	var params []pin
+	for _, p := range u.fn.Params {
+		v, ok := u.entryVals[p]
+		if !ok {
+			out.How = "parameter without entry value"
+			return
+		}
+		if !exportedOrLocal(p.Type(), r.pkg) {
+			out.How = "parameter type not nameable from the test"
+			return
+		}
+		n := &rnode{t: p.Type(), loc: &rloc{t: p.Type(), term: v.S}}
+		r.describe(n, v, 0)
+		if n.kind == "unsupported" {
+			out.How = "parameter " + p.Name() + ": " + n.why
+			return
+		}
+		params = append(params, pin{p.Name(), n, v})
+	}
+	// package-level variables of this package that the function (or what was inlined) touches
+	var globals []pin
+	seenG := map[*ssa.Global]bool{}
+	fns := []*ssa.Function{u.fn}
+	for k := range u.inlined {
+		if f := eng.allFuncs[u.fn.Pkg.Pkg.Path()+"."+k]; f != nil {
+			fns = append(fns, f)
+		}
+	}
+	for _, f := range fns {
+		for _, b := range f.Blocks {
+			for _, in := range b.Instrs {
+				for _, op := range in.Operands(nil) {
+					g, ok := (*op).(*ssa.Global)
+					if !ok || seenG[g] || g.Pkg != u.fn.Pkg {
+						continue
+					}
+					seenG[g] = true
+					et := g.Type().(*types.Pointer).Elem()
+					if _, imm := eng.immutableInit(g); imm {
+						continue
+					}
+					if _, isFunc := et.Underlying().(*types.Signature); isFunc {
+						continue
+					}
+					if _, isIface := et.Underlying().(*types.Interface); isIface {
+						continue
+					}
+					n := r.build(et, fmt.Sprint(eng.globalID(g)), u.m.offConst(0), nil, 0)
+					globals = append(globals, pin{g.Name(), n, Val{}})
+				}
+			}
+		}
+	}
+	sort.Slice(globals, func(a, b int) bool { return globals[a].name < globals[b].name })
+	dir := filepath.Dir(replayPath)
+	base := strings.TrimSuffix(filepath.Base(replayPath), ".json")
+	// models with every slice length bounded; slices nested in slice elements show up only
+	// after the outer slice has been expanded, hence the rounds
+	var bound, pinned []string
+	nlens := -1
+	for round := 0; round < 4; round++ {
+		var lens []string
+		for _, p := range params {
+			r.sliceLenTerms(p.node, &lens)
+		}
+		for _, g := range globals {
+			r.sliceLenTerms(g.node, &lens)
+		}
+		if len(lens) == nlens {
+			break
+		}
+		nlens = len(lens)
+		bound = nil
+		for _, l := range lens {
+			if u.m.intMode {
+				bound = append(bound, fmt.Sprintf("(<= %s 64)", l))
+			} else {
+				bound = append(bound, fmt.Sprintf("(bvule %s (_ bv64 64))", l))
+			}
+		}
+		if !r.getValues(j, dir, base, append(append([]string{}, bound...), pinned...)) {
+			out.How = "no counterexample with all slices at most 64 elements long (or the solver could not produce one in time)"
+			return
+		}
+		pinned = nil
+		for _, l := range lens {
+			pinned = append(pinned, eq(l, r.val(l)))
+		}
+		for _, p := range params {
+			r.expandSlices(p.node, 0)
+		}
+		for _, g := range globals {
+			r.expandSlices(g.node, 0)
+		}
+	}
+	// predicted results and final contents
+	var resTerms [][]string
+	for _, rv := range o.results {
+		resTerms = append(resTerms, rv.S)
+		r.want(rv.S...)
+	}
+	if !r.getValues(j, dir, base, append(bound, pinned...)) {
+		out.How = "solver did not reproduce the counterexample for value extraction"
+		return
+	}
+	// generate the inputs
+	var args []string
+	recv := ""
+	for i, p := range params {
+		name := fmt.Sprintf("arg%d", i)
+		r.decls = append(r.decls, fmt.Sprintf("var %s %s", name, r.typeName(p.node.t)))
+		r.emit(p.node, name)
+		if i == 0 && u.fn.Signature.Recv() != nil {
+			recv = name
+		} else {
+			args = append(args, name)
+		}
+	}
+	for _, g := range globals {
+		r.emit(g.node, g.name)
+	}
+	if r.bad != "" {
+		out.How = "input not constructible: " + r.bad
+		return
+	}
+	// post-state predictions for the registered leaves
+	type pred struct {
+		expr string
+		t    types.Type
+		term string
+	}
+	var preds []pred
+	if o.postHeaps != nil {
+		ps := r.entry.scratch()
+		ps.heaps = map[string]string{}
+		for k, v := range o.postHeaps {
+			ps.heaps[k] = v
+		}
+		r.terms, r.seenTerm = nil, map[string]bool{}
+		for _, lf := range r.leaves {
+			if lf.loc == nil || lf.loc.ref == "" {
+				continue
+			}
+			pv := ps.scratch().loadAt(lf.t, lf.loc.ref, lf.loc.off, lf.loc.fld)
+			preds = append(preds, pred{lf.goExpr, lf.t, pv.S[0]})
+			r.want(pv.S[0])
+		}
+		for _, rs := range resTerms {
+			r.want(rs...)
+		}
+		saved := r.vals
+		// pin the inputs so that the predictions belong to the same counterexample
+		var pinIn []string
+		for t, v := range saved {
+			if strings.HasPrefix(v, "#") || v == "true" || v == "false" || isPlainInt(v) || strings.HasPrefix(v, "(- ") {
+				pinIn = append(pinIn, eq(t, v))
+			}
+		}
+		sort.Strings(pinIn)
+		if !r.getValues(j, dir, base, append(append(bound, pinned...), pinIn...)) {
+			out.How = "solver did not reproduce the counterexample for the predicted outputs"
+			return
+		}
+		for k, v := range saved {
+			if _, ok := r.vals[k]; !ok {
+				r.vals[k] = v
+			}
+		}
+	}
+	// the test
+	var sb strings.Builder
+	sb.WriteString("package " + r.pkg.Name() + "\n\n// Generated by govc: replay of the counterexample to\n//   " + o.name + "\n//   clause: " + strings.ReplaceAll(o.clause, "\n", " ") + "\n\nimport (\n\t\"fmt\"\n\t\"testing\"\n")
+	var ips []string
+	for p := range r.imports {
+		ips = append(ips, p)
+	}
+	sort.Strings(ips)
+	for _, p := range ips {
+		sb.WriteString(fmt.Sprintf("\t%s %q\n", r.imports[p], p))
+	}
+	sb.WriteString(")\n\n")
+	for _, sc := range r.stubCode {
+		sb.WriteString(sc + "\n")
+	}
+	sb.WriteString("func TestGovcReplay(t *testing.T) {\n")
+	for _, d := range r.decls {
+		sb.WriteString("\t" + d + "\n")
+	}
+	nres := u.fn.Signature.Results().Len()
+	call := ""
+	fname := u.fn.Name()
+	if recv != "" {
+		call = recv + "." + fname + "(" + strings.Join(args, ", ") + ")"
+	} else {
+		call = fname + "(" + strings.Join(args, ", ") + ")"
+	}
+	sb.WriteString("\tfunc() {\n\t\tdefer func() {\n\t\t\tif r := recover(); r != nil {\n\t\t\t\tfmt.Printf(\"GOVC-PANIC %v\\n\", r)\n\t\t\t}\n\t\t}()\n")
+	if nres > 0 {
+		var rn []string
+		for i := 0; i < nres; i++ {
+			rn = append(rn, fmt.Sprintf("res%d", i))
+		}
+		sb.WriteString("\t\t" + strings.Join(rn, ", ") + " := " + call + "\n")
+		for i := 0; i < nres; i++ {
+			rt := u.fn.Signature.Results().At(i).Type()
+			switch rt.Underlying().(type) {
+			case *types.Basic:
+				sb.WriteString(fmt.Sprintf("\t\tfmt.Printf(\"GOVC-RES %d %%v\\n\", res%d)\n", i, i))
+			case *types.Pointer, *types.Interface, *types.Slice:
+				sb.WriteString(fmt.Sprintf("\t\tfmt.Printf(\"GOVC-RES %d nil=%%v\\n\", res%d == nil)\n", i, i))
+			default:
+				sb.WriteString(fmt.Sprintf("\t\t_ = res%d\n", i))
+			}
+		}
+	} else {
+		sb.WriteString("\t\t" + call + "\n")
+	}
+	sb.WriteString("\t\tfmt.Printf(\"GOVC-RETURNED\\n\")\n\t}()\n")
+	for i, p := range preds {
+		sb.WriteString(fmt.Sprintf("\tfmt.Printf(\"GOVC-POST %d %%v\\n\", %s)\n", i, p.expr))
+	}
+	sb.WriteString("}\n")
+	testFile := filepath.Join(dir, base+"_replay_test.go")
+	os.WriteFile(testFile, []byte(sb.String()), 0644)
+	out.Test = testFile
+	// run it against the real package through an overlay
+	pkgDir := ""
+	if p := eng.pkgs[u.fn.Pkg.Pkg.Path()]; p != nil && len(p.GoFiles) > 0 {
+		pkgDir = filepath.Dir(p.GoFiles[0])
+	}
+	if pkgDir == "" {
+		out.How = "package directory unknown"
+		return
+	}
+	ov := map[string]map[string]string{"Replace": {filepath.Join(pkgDir, "zz_govc_replay_test.go"): testFile}}
+	ovData, _ := json.Marshal(ov)
+	ovFile := filepath.Join(dir, base+".overlay.json")
+	os.WriteFile(ovFile, ovData, 0644)
+	root := moduleRoot(pkgDir)
+	rel, _ := filepath.Rel(root, pkgDir)
+	ctx, cancel := context.WithTimeout(context.Background(), 120*time.Second)
+	defer cancel()
+	cmd := exec.CommandContext(ctx, "go", "test", "-overlay", ovFile, "-vet=off", "-count=1", "-timeout", "60s", "-run", "^TestGovcReplay$", "-v", "./"+rel)
+	cmd.Dir = root
+	cmd.Env = append(os.Environ(), "GOFLAGS=-mod=mod", "GOPROXY=off", "GOSUMDB=off", "GOTOOLCHAIN=local")
+	var buf bytes.Buffer
+	cmd.Stdout, cmd.Stderr = &buf, &buf
+	cmd.Run()
+	out.Command = "cd " + root + " && go test -overlay " + ovFile + " -vet=off -count=1 -timeout 60s -run '^TestGovcReplay$' -v ./" + rel
+	var lines []string
+	got := map[string]string{}
+	panicked, returned := "", false
+	for _, ln := range strings.Split(buf.String(), "\n") {
+		if strings.HasPrefix(ln, "GOVC-") {
+			lines = append(lines, ln)
+			f := strings.SplitN(ln, " ", 3)
+			switch f[0] {
+			case "GOVC-PANIC":
+				panicked = strings.TrimPrefix(ln, "GOVC-PANIC ")
+			case "GOVC-RETURNED":
+				returned = true
+			case "GOVC-RES", "GOVC-POST":
+				if len(f) == 3 {
+					got[f[0]+" "+f[1]] = f[2]
+				}
+			}
+		}
+	}
+	if len(lines) == 0 {
+		tail := buf.String()
+		if len(tail) > 600 {
+			tail = tail[len(tail)-600:]
+		}
+		out.How = "the replay test did not run to completion: " + strings.ReplaceAll(tail, "\n", " | ")
+		return
+	}
+	out.Output = lines
+	safety := map[string]bool{"index": true, "slice-bounds": true, "nil-deref": true, "type-assert": true, "panic": true, "div-zero": true, "make-len": true, "shift": true}
+	if safety[o.kind] {
+		if panicked != "" {
+			out.Status = "confirmed"
+			out.How = "the real function panics on the counterexample input: " + panicked
+		} else {
+			out.How = "the real function did not panic on the counterexample input"
+		}
+		return
+	}
+	if panicked != "" {
+		out.How = "the real function panicked on the counterexample input (" + panicked + ") although the refuted clause is a postcondition"
+		return
+	}
+	if !returned {
+		out.How = "the real function did not return"
+		return
+	}
+	// compare results and final contents with the model's predictions
+	var diffs []string
+	ncmp := 0
+	for i, rs := range resTerms {
+		rt := u.fn.Signature.Results().At(i).Type()
+		g, ok := got[fmt.Sprintf("GOVC-RES %d", i)]
+		if !ok {
+			continue
+		}
+		switch rt.Underlying().(type) {
+		case *types.Basic:
+			want := canon(rt, r.val(rs[0]))
+			ncmp++
+			if normGo(g) != want {
+				diffs = append(diffs, fmt.Sprintf("result %d: real %s, model %s", i, g, want))
+			}
+		case *types.Pointer, *types.Interface, *types.Slice:
+			isNil := false
+			if rs0 := r.val(rs[0]); rs0 == "0" {
+				if len(rs) < 2 {
+					isNil = true
+				} else if n, ok := smtInt(r.val(rs[1])); ok && n.Sign() == 0 {
+					isNil = true
+				} else if _, isIface := rt.Underlying().(*types.Interface); isIface {
+					isNil = true
+				}
+			}
+			ncmp++
+			if g != fmt.Sprintf("nil=%v", isNil) {
+				diffs = append(diffs, fmt.Sprintf("result %d: real %s, model nil=%v", i, g, isNil))
+			}
+		}
+	}
+	for i, p := range preds {
+		g, ok := got[fmt.Sprintf("GOVC-POST %d", i)]
+		if !ok {
+			continue
+		}
+		want := canon(p.t, r.val(p.term))
+		ncmp++
+		if normGo(g) != want {
+			diffs = append(diffs, fmt.Sprintf("%s: real %s, model %s", p.expr, g, want))
+		}
+	}
+	if len(diffs) > 0 {
+		if len(diffs) > 6 {
+			diffs = diffs[:6]
+		}
+		out.How = "the real function's outputs differ from the model's prediction on this input (the engine's model of the code is imprecise here, or the input could not be reproduced exactly): " + strings.Join(diffs, "; ")
+		return
+	}
+	if ncmp == 0 {
+		out.How = "nothing observable to compare"
+		return
+	}
+	out.Status = "confirmed"
+	out.How = fmt.Sprintf("on the counterexample input the real function returns exactly the results and leaves exactly the object contents the model predicts (%d values compared); for these values the solver showed the clause false", ncmp)
+	return
+}
+
+func isPlainInt(v string) bool {
+	_, err := strconv.ParseInt(v, 10, 64)
+	return err == nil
+}
+
+func normGo(s string) string {
+	s = strings.TrimSpace(s)
+	return s
+}
